@@ -201,7 +201,9 @@ def St.delSpace (st : St) (p : Path) : Option St :=
     let kept := (st.spaces.filter (fun s => !removed.contains s.id)).map
       (fun s => { s with bases := s.bases.filter (fun b => !removed.contains b) })
     let st1 : St := { st with spaces := kept }
-    some (st1.updateAll toUpdate)
+    -- losing a base can leave a sub space without a C3 MRO: checked before anything is changed
+    if !toUpdate.all (fun q => (st1.mro q).isSome) then none
+    else some (st1.updateAll toUpdate)
 
 /-- one sub space of `SpaceManager.new_cells` / `new_ref` -/
 def St.newMemberSub (st : St) (a : Attr) (p : Path) (name : String) (v : Nat) (q : Path) : St :=
@@ -305,9 +307,14 @@ def St.removeBases (st : St) (p : Path) (bs : List Path) : Option St :=
     if !st1.ids.all (fun q => (st1.mro q).isSome) then none
     else some (st1.updateAll ds)
 
-/-- `SpaceManager.new_ref` (value without identity) -/
+/-- `SpaceManager.new_ref` (value without identity).  `_find_name_in_subs(space, name)` starts with the
+space itself: with a model-level reference of the name it finds that one and is satisfied; without
+one, the first sub space that has the name in its namespace refuses.  In both cases every sub space
+is then checked for a cells or a child space of the name. -/
 def St.newRef (st : St) (p : Path) (name : String) (v : Nat) : Option St :=
-  if !(st.globals.contains name || (p :: st.subs p).all (fun q => (st.kindOf q name).isNone)) then none
+  if !(if st.globals.contains name then
+         (st.subs p).all (fun q => (st.mem .cells q name).isNone && !(st.childNames q).contains name)
+       else (p :: st.subs p).all (fun q => (st.kindOf q name).isNone)) then none
   else
     let st1 := st.setMem .refs p name { derived := false, payload := v }
     some ((st1.subs p).foldl (fun s q => s.newMemberSub .refs p name v q) st1)
